@@ -21,7 +21,7 @@ func Spec() *evid.Spec {
 		ID:    "C02",
 		Level: "exploration",
 		Rule: "lane executions: the adversarial cluster executions of C01 with the certificate oracle on every decided message returned by Controller.ProcessMsg, every instance handed to the store and every flip of State.Decided " +
-			"(local decisions additionally: value check, accepted proposal signed by the oracle's round-robin leader). lane forgery: a genuine certificate (2f+1..N signers) x one mutation of a 19-entry catalogue x controller state " +
+			"(local decisions additionally: value check, accepted proposal signed by the oracle's round-robin leader). lane forgery: a genuine certificate (2f+1..N signers) x one mutation of a 38-entry catalogue x controller state " +
 			"{fresh, mid-instance, already decided} x committee 4/7; a forgery case counts only if the independent oracle calls the mutated certificate invalid. Non-trivial = execution with >=1 checked decision, or a counted forgery; " +
 			"distinct = trajectory hash / (mutation, state, N, signer count)",
 		Assumptions: []string{
@@ -68,7 +68,64 @@ func clone(m *specqbft.SignedMessage) *specqbft.SignedMessage {
 	return r
 }
 
+// badSignerFamily: a non-member / zero / duplicated id at the first, middle or last position of the signer list, with
+// the signature either left as it was or re-aggregated over exactly the genuine members that remain listed (what a
+// verifier that skips ids it cannot resolve would check).
+func badSignerFamily() []mutation {
+	var out []mutation
+	for _, pos := range []string{"first", "middle", "last"} {
+		for _, kind := range []string{"foreign", "zero", "duplicate"} {
+			for _, resign := range []bool{false, true} {
+				pos, kind, resign := pos, kind, resign
+				name := fmt.Sprintf("bad-signer-%s-%s", kind, pos)
+				if resign {
+					name += "-sig-over-remaining-members"
+				}
+				out = append(out, mutation{name, func(cl *qsim.Cluster, m *specqbft.SignedMessage, _ []*specqbft.SignedMessage) *specqbft.SignedMessage {
+					i := map[string]int{"first": 0, "middle": len(m.Signers) / 2, "last": len(m.Signers) - 1}[pos]
+					switch kind {
+					case "foreign":
+						m.Signers[i] = spectypes.OperatorID(cl.Cfg.N + 1 + i)
+					case "zero":
+						m.Signers[i] = 0
+					default:
+						m.Signers[i] = m.Signers[(i+1)%len(m.Signers)]
+					}
+					if resign {
+						var parts []*specqbft.SignedMessage
+						seen := map[spectypes.OperatorID]bool{}
+						for _, s := range m.Signers {
+							if _, ok := cl.KS.Shares[s]; ok && int(s) <= cl.Cfg.N && !seen[s] {
+								seen[s] = true
+								parts = append(parts, qsim.Sign(cl.KS, s, &m.Message))
+							}
+						}
+						if len(parts) > 0 {
+							m.Signature = qsim.Aggregate(parts).Signature
+						}
+					}
+					return m
+				}})
+			}
+		}
+	}
+	// several foreign ids up front, one genuine member (and its lone signature) last
+	out = append(out, mutation{"foreign-ids-then-one-member-single-signature", func(cl *qsim.Cluster, m *specqbft.SignedMessage, _ []*specqbft.SignedMessage) *specqbft.SignedMessage {
+		last := m.Signers[len(m.Signers)-1]
+		for i := 0; i < len(m.Signers)-1; i++ {
+			m.Signers[i] = spectypes.OperatorID(cl.Cfg.N + 1 + i)
+		}
+		m.Signature = qsim.Sign(cl.KS, last, &m.Message).Signature
+		return m
+	}})
+	return out
+}
+
 func catalogue() []mutation {
+	return append(badSignerFamily(), baseCatalogue()...)
+}
+
+func baseCatalogue() []mutation {
 	return []mutation{
 		{"duplicate-signer", func(cl *qsim.Cluster, m *specqbft.SignedMessage, _ []*specqbft.SignedMessage) *specqbft.SignedMessage {
 			m.Signers[len(m.Signers)-1] = m.Signers[0]
